@@ -124,6 +124,7 @@ void Ctx::label(const std::string &l) { if (seen_.insert("L" + l).second) send("
 void Ctx::nontrivial() { if (seen_.insert("N").second) send("N"); }
 void Ctx::nontrivial_item(const std::string &fp) { send("I " + fp); }
 void Ctx::evals(long n) { send("E " + std::to_string(n)); }
+void Ctx::nontrivial_count(long n) { send("C " + std::to_string(n)); }
 void Ctx::excluded(const std::string &f) { send("X " + f); }
 void Ctx::sample(const std::string &t) { send("S " + hexenc(t)); }
 void Ctx::progress(const std::string &sub) {
@@ -231,6 +232,7 @@ struct Stats {
     std::map<std::string, long> labels;
     std::map<std::string, long> excluded;
     std::set<uint64_t> nontrivial;
+    long enum_nontrivial = 0;
     std::vector<std::pair<uint64_t, std::string>> samples;  // (rank, text)
     std::string first_sample, largest_sample;
     long flaky = 0, inconclusive = 0;
@@ -317,6 +319,7 @@ Result execute(Harness &h, const Case &c) {
         else if (t == 'N') res.nontrivial = true;
         else if (t == 'I') res.nt_items.push_back(rest);
         else if (t == 'E') res.evals += strtol(rest.c_str(), nullptr, 10);
+        else if (t == 'C') res.nt_count += strtol(rest.c_str(), nullptr, 10);
         else if (t == 'X') res.excluded.push_back(rest);
         else if (t == 'S') res.samples.push_back(rest);
         else if (t == 'V') {
@@ -364,6 +367,7 @@ static bool try_case(const Case &c) {
         if (g_stats.nontrivial.insert(fnv64(text)).second) g_stats.add_sample(text, config().seed);
     }
     for (auto &i : r.nt_items) g_stats.nontrivial.insert(fnv64(i));
+    g_stats.enum_nontrivial += r.nt_count;
     for (auto &s : r.samples) {
         std::string t;
         auto v = [](char ch) { return ch <= '9' ? ch - '0' : (ch | 32) - 'a' + 10; };
@@ -401,7 +405,8 @@ static void write_stats(const std::string &mode, double wall) {
     std::ostringstream o;
     o << "{\"property\":\"" << g_h->property() << "\",\"mode\":\"" << mode << "\",\"worker\":" << cfg.worker
       << ",\"seed\":" << cfg.seed << ",\"cases\":" << g_stats.cases << ",\"evaluations\":" << g_stats.evaluations
-      << ",\"distinct_nontrivial\":" << g_stats.nontrivial.size() << ",\"wall_s\":" << wall << ",\"labels\":{";
+      << ",\"distinct_nontrivial\":" << (g_stats.nontrivial.size() + (size_t)g_stats.enum_nontrivial)
+      << ",\"enum_nontrivial\":" << g_stats.enum_nontrivial << ",\"wall_s\":" << wall << ",\"labels\":{";
     bool first = true;
     for (auto &kv : g_stats.labels) { o << (first ? "" : ",") << "\"" << jesc(kv.first) << "\":" << kv.second; first = false; }
     o << "},\"excluded\":{";
